@@ -23,9 +23,15 @@ SPEC = {
         "cause, each a listed known finding; three further root causes were repaired in /repo and their witnesses are kept "
         "as theorems about the model at the old fact values (C16_old_*). The statement / builtin layer of the two evaluators "
         "(Model/AspInterp.lean, Model/PyInterp.lean) is tied to the real interpreter and to python3 only by correspondence; "
-        "at program level there is one all-operands theorem (C16_program_arith: for every op in + - * // % and all int "
-        "literals the parser accepts whose result fits 64 bits, both interpreters run `a = x op y` and render the same "
-        "globals); no agreement theorem for arbitrary programs is claimed (other program-level statements are single decided samples)."
+        "at program level: C16_program_int_partial, by structural induction over programs (Lemmas/AspIntProgram.lean) - for "
+        "EVERY integer program (x = e)* with e ::= n | x | (e) | e op e, op in + - * // %, any number of statements, any "
+        "nesting depth, names referring to earlier assignments, whenever the mathematical meaning is defined (literals the "
+        "parser accepts, names bound, intermediate results within 64 bits, no zero divisor) both interpreters run the program "
+        "and render exactly that meaning (so they do not disagree); C16_program_arith is its one-statement instance. The "
+        "program-level statement for the whole modelled grammar (strings, lists, dicts, control flow, functions, "
+        "comprehensions, builtins, multi-operator chains; error-class agreement) is NOT proved: it is stated in Props/C16.lean "
+        "with what is missing; outside the integer fragment program-level statements are decided samples "
+        "(C16_sample_complex_program: nested comprehensions + sorted + string ops) and the differential oracle."
     ),
     "technique": "Lean proofs about a transcription of interpretOps + differential three-way tie (asp, Lean asp model, Lean Python reference, python3) with repair-based classification of disagreements",
     "trusted": [
